@@ -730,8 +730,20 @@ func fillHashHelper(r interface{}, depth int, env *Zlisp, preferSym bool) (Sexp,
 
 	// check for one of our registered structs
 
-	// go through the type registry upfront
-	for hashName, factory := range GoStructRegistry.Registry {
+	// go through the type registry upfront. Every struct is registered under
+	// its given name(s) and under its Go type name, and map order is random:
+	// walk the names in sorted order and use the name the type was registered
+	// with, so that the record's type name is the same on every run.
+	regNames := make([]string, 0, len(GoStructRegistry.Registry))
+	for hashName := range GoStructRegistry.Registry {
+		regNames = append(regNames, hashName)
+	}
+	sort.Strings(regNames)
+	for _, hashName := range regNames {
+		factory := GoStructRegistry.Registry[hashName]
+		if factory.RegisteredName != "" {
+			hashName = factory.RegisteredName
+		}
 		//P("fillHashHelper is trying hashName='%s'", hashName)
 		st, err := factory.Factory(env, nil)
 		if err != nil {
